@@ -351,12 +351,73 @@ def runtime_known(krun, kind, fn):
     return None
 
 
+def guard_pairs_check(chk, gstatus):
+    """(1) every extracted site: read extent <= guarded size, else VIOLATION naming the site and the read that sticks out (the same fact Thm/C06
+    struct_guard_reads_in_guard decides in Lean); (2) the struct layouts the translator parsed from the headers agree with the compiler's sizeof/offsetof."""
+    import subprocess
+    found = False
+    sites = gstatus["sites"]
+    for s in sites:
+        if s["read_extent"] > s["guard_size"]:
+            chk.violation("guard_%s.json" % s["name"].replace("/", "_"), {"kind": "read-beyond-guard", "engine": "guards", "harness": "-", "case": s["name"],
+                          "implementation": "guard %s = %d bytes; reads through the %s pointer reach byte %d (fields %s)" %
+                          (s["guard_type"], s["guard_size"], s["ptr_type"], s["read_extent"], ", ".join(s["fields"])),
+                          "model_spec": "every read through a guarded pointer stays within the guarded size", "file": s["file"]})
+            found = True
+    for form in (gstatus["strnlen"] or [[]])[0]:
+        m = re.fullmatch(r"\(?\(data_size - offset\)(?: ([+-]) \((\d+)#64\)\))?", form)
+        k = 0 if not m or not m.group(1) else (int(m.group(2)) if m.group(1) == "+" else -int(m.group(2)))
+        for sz, off in ((100, 40), (100, 100), (0, 0), (1 << 32, 5)):
+            bound = (sz - off + k) % (1 << 64)
+            if off + bound > sz:
+                chk.violation("guard_strnlen.json", {"kind": "read-beyond-guard", "engine": "guards", "harness": "-", "case": "pe.c strnlen bound %s" % form,
+                              "implementation": "data_size=%d offset=%d: strnlen may read %d bytes from offset, i.e. up to byte %d of a %d-byte file" % (sz, off, bound, off + bound, sz),
+                              "model_spec": "pe_strnlen_walk_in_file: offset + bound <= data_size"})
+                found = True
+                break
+    lay = gstatus["layouts"]
+    src = ["#include <stdio.h>", "#include <stddef.h>", "#include <yara/pe.h>", "#include <yara/dotnet.h>", "#include <yara/elf.h>", "int main(void) {"]
+    for t in sorted(lay):
+        src.append('  printf("%s %%zu\\n", sizeof(%s));' % (t, t))
+        for f in sorted(lay[t]["fields"]):
+            src.append('  printf("%s.%s %%zu %%zu\\n", offsetof(%s, %s), sizeof(((%s*) 0)->%s));' % (t, f, t, f, t, f))
+    src += ["  return 0;", "}"]
+    d = os.path.join(core.vbuild.BUILD, "layout")
+    os.makedirs(d, exist_ok=True)
+    open(os.path.join(d, "layout.c"), "w").write("\n".join(src) + "\n")
+    r = subprocess.run(["gcc", "-w", "-D_GNU_SOURCE", "-I%s/libyara/include" % core.REPO, "-I%s/libyara" % core.REPO, "-o", os.path.join(d, "layout"), os.path.join(d, "layout.c")],
+                       stdout=subprocess.PIPE, stderr=subprocess.STDOUT, text=True)
+    tie = "not-built"
+    if r.returncode == 0:
+        out = subprocess.run([os.path.join(d, "layout")], stdout=subprocess.PIPE, text=True).stdout.split("\n")
+        want = []
+        for t in sorted(lay):
+            want.append("%s %d" % (t, lay[t]["size"]))
+            for f in sorted(lay[t]["fields"]):
+                want.append("%s.%s %d %d" % (t, f, lay[t]["fields"][f][0], lay[t]["fields"][f][1]))
+        got = [l for l in out if l]
+        bad = [(w, g) for w, g in zip(want, got) if w != g]
+        tie = "ok (%d sizes/offsets)" % len(want) if not bad and len(want) == len(got) else "MISMATCH"
+        if tie == "MISMATCH":
+            chk.violation("guard_layout.json", {"kind": "translator-layout-mismatch", "engine": "guards", "harness": "-", "case": "struct layouts",
+                                                "implementation": "compiler: %s" % (bad[:5] or got[-3:]), "model_spec": "translator: parsed layout of the packed structs"})
+            found = True
+    else:
+        tie = "layout program does not compile: " + r.stdout[-300:]
+    if gstatus["unparsed"]:
+        print("NOTE property=C06 guard/read translator could not parse: %s (not counted; other sites and the runtime campaign still decide)" % "; ".join(gstatus["unparsed"])[:300])
+    return {"sites": len(sites), "sites_with_read_extent_equal_guard": sum(1 for s in sites if s["read_extent"] == s["guard_size"]),
+            "unparsed_sites": gstatus["unparsed"], "strnlen_bound": gstatus["strnlen"], "layout_tie": tie, "found": found,
+            "site_list": ["%s: guard %s=%d, extent %d" % (s["name"], s["guard_type"], s["guard_size"], s["read_extent"]) for s in sites]}
+
+
 def run(tier, replay=None):
     chk = core.Check("C06", tier)
     for f in glob.glob(os.path.join(core.OUT, "C06", "*.json")):
         os.remove(f)
-    tr = core.run_translators(["bounds"])
+    tr = core.run_translators(["bounds", "guards"])
     status = json.load(open(os.path.join(core.LEAN, "YaraModel", "Gen", "Bounds.status.json")))
+    gstatus = json.load(open(os.path.join(core.LEAN, "YaraModel", "Gen", "Guards.status.json")))
     lres = core.lean_check(THM)
     core.proof_coverage(chk, lres, THM, tr)
     # predicates the translator could not parse get a never-accepting stub: their theorems are vacuous and are NOT counted as discharged,
@@ -381,6 +442,10 @@ def run(tier, replay=None):
     found = False
     r = core.rng("C06")
 
+    # ---------------------------------------------------------------- 1b. guard/read pairs: concrete check + layout tie with the compiler
+    gsum = guard_pairs_check(chk, gstatus)
+    found = found or gsum.pop("found")
+    chk.cov["guard_read_pairs"] = gsum
     # ---------------------------------------------------------------- 2. function-level correspondence
     npred = 4000 if tier == "quick" else 200000
     pcases = ["s0 sizes"] + gen_pred_cases(r, npred) + gen_rva_cases(r, 1500 if tier == "quick" else 60000) + gen_model_only(r, 3000 if tier == "quick" else 60000)
